@@ -144,11 +144,17 @@ def main(argv=None):
                 seen_f.add(c["facet"])
     todo.sort(key=lambda x: x[0])
     cap = int(os.environ.get("VERIF_MAX_REPLAYS", "150"))
-    skipped = len(todo) - cap if len(todo) > cap else 0
-    for _pr, i, c in todo[cap:]:
-        c["confirmed"] = False
-        c["replay"] = dict(skipped="replay budget (%d) used up by other counterexamples of this run" % cap)
-    todo = [(i, c) for _pr, i, c in todo[:cap]]
+    allowed, kept, skipped = set(), [], 0
+    for _pr, i, c in todo:  # the budget counts distinct (obligation, model) pairs: one replay decides all candidates sharing them
+        key = (i, json.dumps(c["model"], sort_keys=True))
+        if key in allowed or len(allowed) < cap:
+            allowed.add(key)
+            kept.append((i, c))
+        else:
+            skipped += 1
+            c["confirmed"] = False
+            c["replay"] = dict(skipped="replay budget (%d) used up by other counterexamples of this run" % cap)
+    todo = kept
     if skipped:
         print("NOTE property=%s %d further solver counterexamples were not replayed (budget %d; set VERIF_MAX_REPLAYS to raise it)" % (prop, skipped, cap))
 
@@ -163,8 +169,32 @@ def main(argv=None):
         return c
 
     if todo:
+        # one replay per distinct (obligation, model): a replay reports every facet of the harness, so it decides all the
+        # candidates of that obligation that share the model
+        distinct, order_ = {}, []
+        for i, c in todo:
+            key = (i, json.dumps(c["model"], sort_keys=True))
+            if key not in distinct:
+                distinct[key] = []
+                order_.append((i, c))
+            distinct[key].append(c)
         with ThreadPoolExecutor(max_workers=jobs) as ex:
-            list(ex.map(rp, todo))
+            list(ex.map(rp, order_))
+        for (i, _k), group in distinct.items():
+            lead = group[0]
+            for c in group[1:]:
+                out = lead.get("replay", {})
+                c["replay"] = out
+                c["confirmed"] = False if ("error" in out or "out_of_domain" in out) else out.get("facets", {}).get(c["facet"], None) is False
+        # a facet that a replayed model of the same obligation falsifies is confirmed with that model, whichever candidate it came from
+        for i in ids:
+            outs = [(c["model"], c["replay"]) for c in results[i].get("candidates", []) if isinstance(c.get("replay"), dict) and "facets" in c["replay"]]
+            for c in results[i].get("candidates", []):
+                if not c.get("confirmed"):
+                    for model, out in outs:
+                        if out["facets"].get(c["facet"], None) is False:
+                            c["model"], c["replay"], c["confirmed"] = model, out, True
+                            break
 
     # ---- verdicts ---------------------------------------------------------------------------------------
     known = load_known()
